@@ -5,6 +5,7 @@ import (
 	"bytes"
 	"encoding/hex"
 	"fmt"
+	"math"
 	"time"
 
 	"github.com/cometbft/cometbft/crypto/tmhash"
@@ -58,18 +59,38 @@ type opData struct {
 	noTx    bool
 }
 
-type Driver struct{}
+type Driver struct {
+	nearWrap bool
+}
 
 func New() (*mc.Env, mc.Driver) {
 	e := mc.NewEnv(mc.EnvOptions{Balances: map[string]sdk.Coins{"A": nil, "B": nil}})
 	return e, &Driver{}
 }
 
-func (d *Driver) ID() string       { return "C19" }
+// NewNearWrap is New on a chain whose record counter stands where 2^32-3 creations would have left it (set through
+// the keeper's own exported setter): "arbitrarily long histories" include the wrap of the 32-bit counter, which
+// no exploration reaches by creating records one by one.
+func NewNearWrap() (*mc.Env, mc.Driver) {
+	e := mc.NewEnv(mc.EnvOptions{Balances: map[string]sdk.Coins{"A": nil, "B": nil}})
+	return e, &Driver{nearWrap: true}
+}
+
+func (d *Driver) ID() string {
+	if d.nearWrap {
+		return "C19/near-counter-wrap"
+	}
+	return "C19"
+}
 func (d *Driver) Stores() []string { return []string{"record"} }
 
 func (d *Driver) Init(e *mc.Env) *mc.State {
-	return &mc.State{Ctx: mc.Branch(e.Root), Model: &model{}}
+	s := &mc.State{Ctx: mc.Branch(e.Root), Model: &model{}}
+	if d.nearWrap {
+		e.Record.SetIntraTxCounter(s.Ctx, math.MaxUint32-2)
+		s.MarkDirty()
+	}
+	return s
 }
 
 func (d *Driver) Enabled(e *mc.Env, s *mc.State) []mc.Op {
@@ -214,6 +235,7 @@ func Parts() []mc.Part {
 	return []mc.Part{
 		mc.ExplorePartC("search", New, 6, 8, true, "state with >= 2 records created on the path; distinct by canonical store+model hash",
 			&mc.ConfOpts{Stores: []string{"record"}, SkipDenoms: map[string]bool{"stake": true}, MaxPaths: 150, SignInSeam: true}),
+		mc.ExplorePart("search-near-counter-wrap", NewNearWrap, 5, 6, true, "as search; the record counter starts at 2^32-3"),
 		surface,
 	}
 }
